@@ -33,6 +33,10 @@ def eval_comprehension(interp, node, env, kind):
         raise Unsupported("async comprehension")
     # evaluate the first iterable in the enclosing scope (python semantics)
     first_iter = interp.eval(gens[0].iter, env)
+    if hasattr(first_iter, "pyvc_comp"):
+        if len(gens) != 1:
+            raise Unsupported("nested comprehension over an abstract collection")
+        return first_iter.pyvc_comp(interp, node, env, kind)
     sym = None
     if isinstance(first_iter, SSeq) and not T.is_const(first_iter.n):
         sym = first_iter
